@@ -17,7 +17,7 @@ structure Header where
   sig : Option Enc          -- result of ucnv_detectUnicodeSignature on the first read
   rawShort : Bool           -- the first read has fewer than MAGIC_LENGTH + MAGIC_EXTRA (= 10) bytes
   rawMagic2 : Bool          -- the first 10 bytes are CIF2_UTF8_MAGIC
-  rawMagic2Ws : Bool        -- byte 10 is absent or one of space, tab, LF, CR
+  rawNext : Option Nat      -- the byte after those 10 (`none`: the first read ends there)
   rawMagic7 : Bool          -- the first 7 bytes are "#\#CIF_"
   decoded : Magic           -- first token of the decoded text (after a BOM): 10 units equal to CIF2_MAGIC / starting CIF1_MAGIC[0..7)
   bomFirst : Bool           -- the decoded text starts with U+FEFF
@@ -31,7 +31,17 @@ structure Cfg where
   systemIsUtf8 : Bool       -- ucnv_getName of the system default is "UTF-8"
   fallbackNamed : Bool      -- the last branch of the cascade uses default_encoding_name (repair of G4) rather than NULL
   magicNeedsWs : Bool       -- the raw CIF 2.0 magic test also looks at the byte after the magic (repair of G3)
+  magicFollowers : List Nat -- … and accepts these values for it
+  magicAcceptsEnd : Bool    -- … or the end of the input (`count == MAGIC_LENGTH + MAGIC_EXTRA`)
 deriving DecidableEq, Repr
+
+/-- the test on the byte after the raw magic code, as written: `count == 10 || b == f1 || b == f2 || …` -/
+def followerOk (cfg : Cfg) : Option Nat → Bool
+  | none => cfg.magicAcceptsEnd
+  | some b => cfg.magicFollowers.contains b
+
+/-- … which the tree before the repair of G3 did not make at all -/
+def followerPass (cfg : Cfg) (n : Option Nat) : Bool := !cfg.magicNeedsWs || followerOk cfg n
 
 /-- `options->default_encoding_name` handed to ucnv_open: a NULL name is the system default -/
 def dflt (cfg : Cfg) : Encoding := if cfg.namedGiven then .named else .system
@@ -47,7 +57,7 @@ def stage1 (prefer : Int) (force : Bool) (cfg : Cfg) (h : Header) : Encoding × 
     | some e => (.signature e, if prefer < 20 ∧ prefer > 0 then -2 else v0)
     | none =>
       if prefer > 19 then (.utf8, v0)
-      else if prefer ≥ 0 ∧ h.rawShort = false ∧ h.rawMagic2 = true ∧ (cfg.magicNeedsWs = false ∨ h.rawMagic2Ws = true) then (.utf8, 2)
+      else if prefer ≥ 0 ∧ h.rawShort = false ∧ h.rawMagic2 = true ∧ followerPass cfg h.rawNext = true then (.utf8, 2)
       else if prefer > 0 ∧ (h.rawShort = true ∨ h.rawMagic7 = false) then (.utf8, 2)
       else (if cfg.fallbackNamed then dflt cfg else .system, 1)
 
@@ -85,15 +95,25 @@ def select (prefer : Int) (force : Bool) (cfg : Cfg) (h : Header) : Out :=
 /-- the tree as it is: which variant of the two branches the sources contain -/
 def treeCfg (namedGiven namedIsUtf8 systemIsUtf8 : Bool) : Cfg :=
   { namedGiven, namedIsUtf8, systemIsUtf8,
-    fallbackNamed := ParseConsts.fallbackUsesNamedDefault, magicNeedsWs := ParseConsts.rawMagicChecksFollowingByte }
+    fallbackNamed := ParseConsts.fallbackUsesNamedDefault, magicNeedsWs := ParseConsts.rawMagicChecksFollowingByte,
+    magicFollowers := ParseConsts.rawMagicFollowers, magicAcceptsEnd := ParseConsts.rawMagicAcceptsEnd }
+
+/-- the raw test accepts everything the documentation allows after the magic code -/
+def followersCover (cfg : Cfg) : Prop :=
+  cfg.magicNeedsWs = false ∨
+    (cfg.magicAcceptsEnd = true ∧ cfg.magicFollowers.contains 32 = true ∧ cfg.magicFollowers.contains 9 = true ∧
+     cfg.magicFollowers.contains 10 = true ∧ cfg.magicFollowers.contains 13 = true)
+
+instance (cfg : Cfg) : Decidable (followersCover cfg) := by unfold followersCover; infer_instance
 
 /-- header consistency: without a signature, what the raw-byte tests say agrees with what the decoder will show, and the
-    magic code is a whole token (followed by whitespace or the end of the input) -/
+    magic code is a whole token: what follows it (`rawNext`) is the end of the input or CIF whitespace — LF, CR (also as the
+    first half of CR LF), blank or tab, exactly the characters the decoded-text path (`scan_to_ws`) ends a token at -/
 def consistent (h : Header) : Prop :=
   h.sig = none →
     ((h.decoded = .v2 ↔ (h.rawShort = false ∧ h.rawMagic2 = true)) ∧
      (h.decoded ≠ .none ↔ (h.rawShort = false ∧ h.rawMagic7 = true)) ∧
-     (h.rawMagic2 = true → h.rawMagic2Ws = true))
+     (h.rawMagic2 = true → commentEndsHere h.rawNext = true))
 
 instance (h : Header) : Decidable (consistent h) := by unfold consistent; infer_instance
 
